@@ -40,7 +40,7 @@ def run_one(e, tier):
         props = e["property"] if isinstance(e["property"], list) else [e["property"]]
         for p in props:
             t0 = time.time()
-            env = dict(os.environ, VERIF_REPO=wt, VERIF_BUILD_TAG=".sens." + name)
+            env = dict(os.environ, VERIF_REPO=wt, VERIF_BUILD_TAG=".sens." + name, VERIF_SHRINKTIME=os.environ.get("VERIF_SHRINKTIME", "8s"))
             rr = subprocess.run(["./check", p, tier], cwd=VERIF, env=env, stdout=subprocess.PIPE, stderr=subprocess.STDOUT, text=True)
             viol = [l for l in rr.stdout.splitlines() if l.startswith("VIOLATION")]
             first = ""
